@@ -487,6 +487,34 @@ theorem removal_split (limit nR : Nat) (env : Env) (w : Wid) (addrs : List Addr)
     Lemmas.Deepen3.removeLoop limit nR env w addrs (k + m) P V = Lemmas.Deepen3.removeLoop limit nR env w addrs m Pk Vk :=
   Lemmas.Deepen3.removeLoop_split limit nR env w addrs k m P Pk V Vk h
 
+/-- … from the start of the task: a removal started at a quiet point and interrupted by a crash after ANY number
+    `k` of iterations (`removePrefix_frame`: a non-finishing iteration leaves keystore, cache, status, height table
+    and synced-to alone — C08's `removeRelevantTx_spec` — so the state reached is again a quiet point): the resumed
+    removal ends, for every `m`, with exactly the store of the uninterrupted `removeLoop (k + m)` from the start -/
+theorem removal_resumes_anywhere (limit nR n : Nat) (env : Env) (w : Wid) (P0 : PStore) (V0 : PVol)
+    (stt : WStatus) (r : KsRec) (hk : V0.keys = P0.ks) (hr : AMap.get P0.ks w = some r)
+    (hq : env.node.tipHeight = P0.led.syncedTo) (ht : tipOnB env P0 = true)
+    (hst : (w, stt) ∈ P0.led.status) (hrm : stt.removed = true)
+    (k : Nat) (Pk : PStore) (Vk : PVol)
+    (hpre : Lemmas.Deepen3.removePrefix limit nR env w (Lemmas.Deepen3.addrsOf V0.keys w) k P0 V0 = some (Pk, Vk)) :
+    (crash env n Pk).ok = true ∧ (crash env n Pk).P = Pk ∧ Task.rem w ∈ (crash env n Pk).V.tasks ∧
+    ∀ m, (Lemmas.Deepen3.removeLoop limit nR env w (Lemmas.Deepen3.addrsOf (crash env n Pk).V.keys w) m Pk
+            (crash env n Pk).V).map (·.1) =
+         (Lemmas.Deepen3.removeLoop limit nR env w (Lemmas.Deepen3.addrsOf V0.keys w) (k + m) P0 V0).map (·.1) :=
+  Lemmas.Deepen3.removal_resumes_anywhere limit nR n env w P0 V0 stt r hk hr hq ht hst hrm k Pk Vk hpre
+
+/-- the same for a rescan: interrupted after ANY number `k` of batches (`importStep_frame`: a batch never writes
+    the height table or synced-to and keeps the wallet's `removed` flag; the tip copy is not moved) -/
+theorem import_resumes_anywhere (batch n : Nat) (env : Env) (w : Wid) (P0 : PStore) (V0 : PVol)
+    (ws : WStatus) (hb : BestInv P0 V0) (hk : V0.keys = P0.ks) (hq : env.node.tipHeight = P0.led.syncedTo)
+    (ht : tipOnB env P0 = true) (hws : AMap.get P0.led.status w = some ws) (hrm : ws.removed = false)
+    (k : Nat) (Pk : PStore) (Vk : PVol) (hpre : Lemmas.Deepen3.importPrefix batch n env w k P0 V0 = some (Pk, Vk))
+    (hnd : Lemmas.Deepen3.importDone Pk w = false) :
+    (crash env n Pk).ok = true ∧ (crash env n Pk).P = Pk ∧ Task.imp w ∈ (crash env n Pk).V.tasks ∧
+    ∀ m, (Lemmas.Deepen3.importLoop batch n env w m Pk (crash env n Pk).V).map (·.1) =
+         (Lemmas.Deepen3.importLoop batch n env w (k + m) P0 V0).map (·.1) :=
+  Lemmas.Deepen3.import_resumes_anywhere batch n env w P0 V0 ws hb hk hq ht hws hrm k Pk Vk hpre hnd
+
 /-- IMPORT_RESUMES, full form: one batch of asyncImport is the `Op` `opImportStep` (ledger effect = C07's
     `Model.Import.importStep`); a crash between any two batches at a quiet point: the task is queued again and
     the resumed rescan ends, for every number of remaining batches, with exactly the store of the uninterrupted
